@@ -76,7 +76,12 @@ def _objects(prog):
         return Rec(mo_cls, kind=kind, norba=(None if kind == "generalized" else na), norbb=(None if kind == "generalized" else na), occs=np.array(occs, dtype=float), coeffs=sym_array("c", (2, n)), energies=None, irreps=None, occs_aminusb=(None if aminusb is None else np.array(aminusb, dtype=float)))
 
     plain_basis = lambda: basis(shell([0], ["c"]), shell([2], ["c"]))
-    mk = lambda **kw: Rec(iocls, **{"mo": mo(), "obasis": plain_basis(), "atnums": np.array([8, 1]), "_atcorenums": np.array([8.0, 1.0]), "_charge": None, "_nelec": None, "_spinpol": None, **kw})
+    def mk(**kw):
+        # every stored field of IOData: None, dictionaries empty (their documented type), unless the case says otherwise
+        f = {name: ({} if name in ("extra", "atcharges", "atffparams", "moments", "one_ints", "two_ints", "one_rdms", "two_rdms") else None) for name in iocls.fields}
+        f.update({"mo": mo(), "obasis": plain_basis(), "atnums": np.array([8, 1]), "_atcorenums": np.array([8.0, 1.0])})
+        f.update(kw)
+        return Rec(iocls, **f)
     return {
         "plain restricted": lambda: mk(),
         "plain unrestricted": lambda: mk(mo=mo("unrestricted", (1.0, 1.0, 0.0, 1.0, 0.0, 0.0))),
